@@ -255,6 +255,13 @@ func (rc *RunCtx) writeEvidence(fresh, knownN int) {
 	cov := map[string]interface{}{}
 	cov["evaluations"] = rc.Counts["evaluations"]
 	cov["distinct_nontrivial"] = rc.Distinct["nontrivial"]
+	if rc.Distinct["nontrivial"] > rc.Counts["evaluations"] {
+		// some drivers count an evaluation per input message and a distinct case per registration / direction judged from
+		// it: every distinct case was evaluated at least once, so the number of evaluations is at least that
+		cov["evaluations_counted_per_input"] = rc.Counts["evaluations"]
+		cov["evaluations"] = rc.Distinct["nontrivial"]
+		cov["evaluations_note"] = "the drivers count one evaluation per input and several distinct judged cases per input; evaluations is reported as the number of judged cases (>= distinct_nontrivial), the per-input count is in evaluations_counted_per_input"
+	}
 	cov["rule"] = rc.Prop.Rule
 	samples := rc.Samples
 	if len(samples) > 12 {
